@@ -182,7 +182,7 @@ func (fc *fnCtx) bindParamsFresh() {
 	if !g.lite {
 		g.registerBaseHeap(fc.entryHeap, fc.entryAC)
 	}
-	if c := g.w.contractOf(fc.fn); c != nil {
+	if c := g.topContract(fc.fn); c != nil {
 		sc := fc.specCtxEntry()
 		for _, r := range c.requires {
 			f, err := sc.assumeSpec(r.expr)
@@ -525,7 +525,7 @@ func (fc *fnCtx) run() {
 	}
 	order := rpo(fn)
 	fc.computeLoopOrdinals(order)
-	c := g.w.contractOf(fn)
+	c := g.topContract(fn)
 	if c != nil && fc.parent == nil {
 		// a loop clause that designates no loop of the SSA form decides nothing: report it instead of dropping it
 		// (go/ssa fuses `for { for cond {..} .. }` into ONE loop with two back edges)
@@ -1032,7 +1032,7 @@ func (g *gen) finishTop(fc *fnCtx) {
 		}
 	}
 	g.ifaceObligations(fc)
-	c := g.w.contractOf(fc.fn)
+	c := g.topContract(fc.fn)
 	if c == nil {
 		return
 	}
